@@ -4,7 +4,7 @@ From Coq Require Import NArith Bool List Lia Arith.
 From Coq Require String Ascii.
 Import String.StringSyntax.
 Delimit Scope string_scope with string.
-From CppUVerif Require Import lib.Str C16_Events C20_Model C20_Escape C20_Parse.
+From CppUVerif Require Import lib.Str C16_Events C20_Model C20_Escape C20_Parse C20_Console.
 Import ListNotations.
 Local Open Scope N_scope.
 
@@ -253,9 +253,6 @@ Proof.
 Qed.
 
 (* ---- what a decoder must read from it: messages_of *)
-Lemma msgs_of_items_app a b : msgs_of_items (a ++ b) = msgs_of_items a ++ msgs_of_items b.
-Proof. induction a as [|[m|s] a IH]; cbn [app msgs_of_items]; rewrite ?IH; reflexivity. Qed.
-
 Lemma erase_failure t f l m : erase (failure_pmsg Esc t f l m) = failure_msg t (f, l, m).
 Proof.
   unfold erase, failure_pmsg, failure_msg, failure_text, loc_text. cbn [pm_name pm_attrs map fst snd]. f_equal.
@@ -346,6 +343,21 @@ Proof.
   - rewrite msgs_of_items_times, msgs_segs, suites_msgs_arm, <- times_concat, flat_map_times. reflexivity.
   - apply times_ok, segs_items_ok, segments_forall.
     rewrite forallb_forall in *. intros t' Hin. apply in_map_iff in Hin. destruct Hin as [t [<- Hin]]. rewrite noprint_arm. apply Hp, Hin.
+Qed.
+
+(* the same run very verbose: the progress texts stand between the messages (a message may follow one on the same line); read
+   message-anywhere the stream gives the same messages *)
+Lemma stream_vv ri n ts trailer : forallb noprint ts = true -> no_hash trailer = true ->
+  tc_parse_any (flat_map item_print (tc_items Esc true dur tc_init (vv_decorate false (passes_events ri fs n ts))) ++ trailer)
+  = Some (messages_of dur ri n fs ts).
+Proof.
+  intros Hp Ht.
+  assert (Hok : forallb item_ok (tc_items Esc true dur tc_init (passes_events ri fs n ts)) = true).
+  { rewrite run_items. apply times_ok, segs_items_ok, segments_forall.
+    rewrite forallb_forall in *. intros t' Hin. apply in_map_iff in Hin. destruct Hin as [t [<- Hin]]. rewrite noprint_arm. apply Hp, Hin. }
+  rewrite parse_items_any; [|apply items_ok_decorate; exact Hok|exact Ht].
+  rewrite msgs_decorate, run_items. unfold messages_of, pass_groups.
+  rewrite msgs_of_items_times, msgs_segs, suites_msgs_arm, <- times_concat, flat_map_times. reflexivity.
 Qed.
 End WriterFacts.
 
@@ -505,26 +517,58 @@ Proof.
   unfold noprint. rewrite forallb_forall in *. intros x Hx. specialize (H x Hx). destruct x; [discriminate H | reflexivity | reflexivity].
 Qed.
 
+(* whatever the sink (the pieces themselves, or the platform calls of the console path), the stream is the printed items *)
+Lemma run_stream s : o_stream (run s) = flat_map item_print (run_items_of s).
+Proof. unfold run. cbn [o_stream]. rewrite sink_stream_concat. apply pieces_concat. Qed.
+Lemma run_stream_quiet s : s_verb s <> 2 ->
+  o_stream (run s) = render_tc (s_dur s) (s_ri s) (s_passes s) (s_filters s) (s_tests s).
+Proof.
+  intro H. rewrite run_stream. unfold run_items_of, run_events, decorate.
+  destruct (N.eqb_spec (s_verb s) 2) as [E|_]; [contradiction|]. reflexivity.
+Qed.
+Lemma run_parse_text s trailer : valid s = true -> no_hash trailer = true ->
+  parse_for (s_verb s) (o_stream (run s) ++ trailer) = Some (messages_of (s_dur s) (s_ri s) (s_passes s) (s_filters s) (s_tests s)).
+Proof.
+  intros Hv Ht. rewrite run_stream. unfold parse_for, run_items_of, run_events, decorate.
+  destruct (s_verb s =? 2).
+  - apply stream_vv; [exact (valid_noprint s Hv) | exact Ht].
+  - exact (stream (s_dur s) (s_filters s) (s_ri s) (s_passes s) (s_tests s) trailer (valid_noprint s Hv) Ht).
+Qed.
 Lemma run_meets_spec_text s trailer : valid s = true -> no_hash trailer = true -> spec s (add_text (run s) trailer) = true.
 Proof.
-  intros Hv Ht. unfold spec, run, add_text, run_exec. cbn [o_stream o_exec].
-  rewrite (stream (s_dur s) (s_filters s) (s_ri s) (s_passes s) (s_tests s) trailer (valid_noprint s Hv) Ht), exec_model. apply spec_messages.
+  intros Hv Ht. unfold spec, add_text. cbn [o_stream o_exec].
+  rewrite (run_parse_text s trailer Hv Ht). unfold run, run_exec. cbn [o_exec]. rewrite exec_model. apply spec_messages.
 Qed.
 Lemma add_text_nil o : add_text o [] = o.
 Proof. destruct o as [st ex]. unfold add_text. cbn [o_stream o_exec]. rewrite app_nil_r. reflexivity. Qed.
 Lemma run_meets_spec s : valid s = true -> spec s (run s) = true.
 Proof. intro Hv. rewrite <- (add_text_nil (run s)). apply run_meets_spec_text; [exact Hv | reflexivity]. Qed.
 
+(* ================= chunking and buffering below printBuffer ================= *)
+(* the observation of a run whose platform calls `ops` wrote, in whatever chunks and with flushes wherever, exactly the pieces one
+   after the other, is the model's observation: it is accepted *)
+Lemma run_of_chunks s ops : written ops = concat (run_pieces s) -> {| o_stream := written ops; o_exec := o_exec (run s) |} = run s.
+Proof. intro E. rewrite E. unfold run. cbn [o_exec]. rewrite sink_stream_concat. reflexivity. Qed.
+Lemma spec_any_chunking s ops : valid s = true -> written ops = concat (run_pieces s) ->
+  spec s {| o_stream := written ops; o_exec := o_exec (run s) |} = true.
+Proof. intros Hv E. rewrite (run_of_chunks s ops E). apply run_meets_spec. exact Hv. Qed.
+Lemma sink_independent s k : o_stream (run s) = o_stream (run {| s_dur := s_dur s; s_ri := s_ri s; s_passes := s_passes s; s_filters := s_filters s;
+                                                             s_tests := s_tests s; s_verb := s_verb s; s_sink := k |}).
+Proof. rewrite !run_stream. reflexivity. Qed.
+(* a line buffer that keeps every character is such a chunking, whatever its capacity *)
+Lemma run_linebuf_keeps cap s : run_linebuf false cap s = run s.
+Proof. unfold run_linebuf. rewrite <- (run_of_chunks s (linebuf false cap (run_pieces s)) (linebuf_keeps cap _)). reflexivity. Qed.
+
 (* ================= run-ignored: the registry behaves as the same registry without its ignored markers ================= *)
 Lemma run_ignored_events fs n ts : passes_events true fs n ts = passes_events false fs n (map unignore ts).
 Proof. rewrite !passes_events_times, arm_false_map. reflexivity. Qed.
 Lemma run_ignored_exec fs n ts : passes_exec true fs n ts = passes_exec false fs n (map unignore ts).
 Proof. rewrite !passes_exec_times, arm_false_map. reflexivity. Qed.
-Lemma run_ignored_as_unignored dur n fs ts :
-  run {| s_dur := dur; s_ri := true; s_passes := n; s_filters := fs; s_tests := ts |}
-  = run {| s_dur := dur; s_ri := false; s_passes := n; s_filters := fs; s_tests := map unignore ts |}.
+Lemma run_ignored_as_unignored dur n fs ts verb sink :
+  run {| s_dur := dur; s_ri := true; s_passes := n; s_filters := fs; s_tests := ts; s_verb := verb; s_sink := sink |}
+  = run {| s_dur := dur; s_ri := false; s_passes := n; s_filters := fs; s_tests := map unignore ts; s_verb := verb; s_sink := sink |}.
 Proof.
-  unfold run, run_exec, render_tc, render_with. cbn [s_dur s_ri s_passes s_filters s_tests].
+  unfold run, run_exec, run_pieces, run_items_of, run_events. cbn [s_dur s_ri s_passes s_filters s_tests s_verb s_sink].
   rewrite run_ignored_events, run_ignored_exec. reflexivity.
 Qed.
 (* ... and so no test is flagged and every selected test's body is executed in every pass *)
@@ -545,13 +589,13 @@ Qed.
 (* ================= the code before the two repairs of D15 ================= *)
 (* (1) a failure reported from another file: the test's own path went into the message value unescaped *)
 Definition old_path_witness : scenario :=
-  {| s_dur := 0; s_ri := false; s_passes := 1; s_filters := []; s_tests := [ {| t_group := B "G"%string; t_name := B "t"%string; t_file := B "it's.cpp"%string; t_line := 10; t_ignored := false;
+  {| s_dur := 0; s_ri := false; s_passes := 1; s_filters := []; s_verb := 0; s_sink := 0; s_tests := [ {| t_group := B "G"%string; t_name := B "t"%string; t_file := B "it's.cpp"%string; t_line := 10; t_ignored := false;
                                  t_body := [SFail (B "helper.cpp"%string) 3 (B "boom"%string)] |} ] |}.
 Lemma run_old_path_refuted : ~ (forall s, valid s = true -> spec s (run_old_path s) = true).
 Proof. intro H. specialize (H old_path_witness eq_refl). vm_compute in H. discriminate H. Qed.
 (* (2) a group with the empty name: suite started, never finished *)
 Definition old_group_witness : scenario :=
-  {| s_dur := 0; s_ri := false; s_passes := 1; s_filters := []; s_tests := [ {| t_group := []; t_name := B "t"%string; t_file := B "a.cpp"%string; t_line := 10; t_ignored := false; t_body := [] |} ] |}.
+  {| s_dur := 0; s_ri := false; s_passes := 1; s_filters := []; s_verb := 0; s_sink := 0; s_tests := [ {| t_group := []; t_name := B "t"%string; t_file := B "a.cpp"%string; t_line := 10; t_ignored := false; t_body := [] |} ] |}.
 Lemma run_old_group_refuted : ~ (forall s, valid s = true -> spec s (run_old_group s) = true).
 Proof. intro H. specialize (H old_group_witness eq_refl). vm_compute in H. discriminate H. Qed.
 (* the old writer's stream for (2) does parse; it is the balance that fails *)
@@ -574,7 +618,7 @@ Definition ex_test3 : test :=
 Definition ex_test4 : test :=
   {| t_group := (B "H"%string); t_name := (B "filtered out"%string); t_file := (B "a.cpp"%string); t_line := 40; t_ignored := false; t_body := [] |}.
 Definition example_run : scenario :=
-  {| s_dur := 42; s_ri := false; s_passes := 1; s_filters := [B "t[1]"%string; B "ign"%string; []]; s_tests := [ex_test1; ex_test2; ex_test3; ex_test4] |}.
+  {| s_dur := 42; s_ri := false; s_passes := 1; s_filters := [B "t[1]"%string; B "ign"%string; []]; s_tests := [ex_test1; ex_test2; ex_test3; ex_test4]; s_verb := 0; s_sink := 1 |}.
 
 Lemma example_valid :
   valid example_run = true /\ length (messages_of 42 false 1 (s_filters example_run) (s_tests example_run)) = 16%nat /\ spec example_run (run example_run) = true
@@ -587,8 +631,8 @@ Proof. vm_compute. repeat split; reflexivity. Qed.
 Definition ex_test5 : test :=
   {| t_group := (B "G'1"%string); t_name := (B "ign"%string); t_file := (B "a.cpp"%string); t_line := 20; t_ignored := true;
      t_body := [SFail (B "a.cpp"%string) 21 (B "boom"%string)] |}.
-Definition example_ri : scenario := {| s_dur := 5; s_ri := true; s_passes := 2; s_filters := []; s_tests := [ex_test5; ex_test3] |}.
-Definition example_no_ri : scenario := {| s_dur := 5; s_ri := false; s_passes := 2; s_filters := []; s_tests := [ex_test5; ex_test3] |}.
+Definition example_ri : scenario := {| s_dur := 5; s_ri := true; s_passes := 2; s_filters := []; s_tests := [ex_test5; ex_test3]; s_verb := 0; s_sink := 1 |}.
+Definition example_no_ri : scenario := {| s_dur := 5; s_ri := false; s_passes := 2; s_filters := []; s_tests := [ex_test5; ex_test3]; s_verb := 0; s_sink := 1 |}.
 Definition late_options_obs : obs :=
   {| o_stream := o_stream (run example_no_ri); o_exec := o_exec (run example_ri) |}.
 Lemma example_ri_valid :
@@ -601,11 +645,11 @@ Proof. vm_compute. repeat split; reflexivity. Qed.
 
 (* what spec = true says, spelled out *)
 Lemma spec_reads s o : spec s o = true <->
-  exists ms, tc_parse (o_stream o) = Some ms /\ balanced ms = true
+  exists ms, parse_for (s_verb s) (o_stream o) = Some ms /\ balanced ms = true
              /\ faithful (s_ri s) (s_filters s) (pass_groups (s_passes s) (s_tests s)) (o_exec o) ms = true.
 Proof.
   unfold spec, spec_msgs. split.
-  - destruct (tc_parse (o_stream o)) as [ms|]; [|discriminate]. intro H. apply andb_true_iff in H. exists ms. tauto.
+  - destruct (parse_for (s_verb s) (o_stream o)) as [ms|]; [|discriminate]. intro H. apply andb_true_iff in H. exists ms. tauto.
   - intros [ms [E [Hb Hf]]]. rewrite E, Hb, Hf. reflexivity.
 Qed.
 (* what faithful says about one test: the flag is there iff the test is ignored and not run; a flagged test's body was not executed
@@ -644,3 +688,30 @@ Lemma events_nofilter ts : events_sel false [] ts = events_of ts.
 Proof. apply reg_loop_nofilter. Qed.
 Lemma reg_loop_segments_no_ri fs ts : events_sel false fs ts = flat_map (seg_events fs) (segments ts).
 Proof. apply reg_loop_segments_plain. Qed.
+
+(* ================= the lossy line buffer (red-team change C20-3 of round 3) ================= *)
+(* one test whose name has 230 characters: the line of its testStarted message is longer than the 255 usable bytes of the buffer *)
+Definition long_name_witness : scenario :=
+  {| s_dur := 0; s_ri := false; s_passes := 1; s_filters := [];
+     s_tests := [ {| t_group := B "G"%string; t_name := repeat 97 230; t_file := B "a.cpp"%string; t_line := 10; t_ignored := false; t_body := [] |} ];
+     s_verb := 0; s_sink := 1 |}.
+Lemma run_lossy_linebuf_refuted : ~ (forall s, valid s = true -> spec s (run_linebuf true 255 s) = true).
+Proof. intro H. specialize (H long_name_witness eq_refl). vm_compute in H. discriminate H. Qed.
+(* ... while on runs whose lines are all short it is indistinguishable from the code (which is why the project's tests pass); in the
+   witness one byte is lost in each of the two long lines (testStarted, testFinished) *)
+Lemma run_lossy_linebuf_short_lines :
+  run_linebuf true 255 example_run = run example_run /\ run_linebuf true 255 example_ri = run example_ri
+  /\ length (o_stream (run long_name_witness)) = (length (o_stream (run_linebuf true 255 long_name_witness)) + 2)%nat.
+Proof. vm_compute. repeat split; reflexivity. Qed.
+
+(* ================= verbose and very verbose ================= *)
+Definition example_vv : scenario :=
+  {| s_dur := 42; s_ri := false; s_passes := 1; s_filters := [B "t[1]"%string; B "ign"%string; []]; s_tests := [ex_test1; ex_test2; ex_test3; ex_test4];
+     s_verb := 2; s_sink := 1 |}.
+(* very verbose: testFailed / testFinished follow a progress text on the same line; the strict reading refuses that stream, the
+   message-anywhere reading returns the messages of the quiet run *)
+Lemma example_vv_valid :
+  valid example_vv = true /\ spec example_vv (run example_vv) = true /\ tc_parse (o_stream (run example_vv)) = None
+  /\ tc_parse_any (o_stream (run example_vv)) = tc_parse (o_stream (run example_run))
+  /\ Nat.ltb (length (o_stream (run example_run))) (length (o_stream (run example_vv))) = true.
+Proof. vm_compute. repeat split; reflexivity. Qed.
